@@ -4,6 +4,7 @@ package actor
 
 import (
 	"fmt"
+	"github.com/kercylan98/vivid"
 	"runtime"
 	"strings"
 	"testing"
@@ -19,13 +20,15 @@ import (
 // through a ref built from address + path.
 
 type vfLWCase struct {
-	Site  string
-	Top   bool // spawned by System.ActorOf (child of the root) or by an actor's ctx.ActorOf
-	Sends int
+	Site     string
+	Top      bool   // spawned by System.ActorOf (child of the root) or by an actor's ctx.ActorOf
+	Sends    int    // user messages from the early sender (same goroutine: their order must be kept)
+	Early    string // what else the early sender does first: "" | kill (system message) | poison (user message) | watch
+	FailMode int    // 0: OnLaunch succeeds; 1: it panics, parent decides Resume; 2: Restart; 3: Stop
 }
 
 func (c vfLWCase) String() string {
-	return fmt.Sprintf("delay@%s top=%v early-sends=%d", c.Site, c.Top, c.Sends)
+	return fmt.Sprintf("delay@%s top=%v early-sends=%d early-op=%q launch=%s", c.Site, c.Top, c.Sends, c.Early, [...]string{"ok", "panics/Resume", "panics/Restart", "panics/Stop"}[c.FailMode])
 }
 
 func vfRunLW(c vfLWCase, res *vfCellResult) (early int, injected int) {
@@ -36,13 +39,27 @@ func vfRunLW(c vfLWCase, res *vfCellResult) (early int, injected int) {
 		return
 	}
 	parentPath := ""
+	child := &vfSpec{Name: "w"}
+	parent := &vfSpec{Name: "P"}
+	if c.FailMode > 0 {
+		child.FailLaunchInc = 1
+		parent.Strategy = 1
+		parent.Decisions = []vivid.SupervisionDecision{[...]vivid.SupervisionDecision{vivid.SupervisionDecisionResume, vivid.SupervisionDecisionResume, vivid.SupervisionDecisionRestart, vivid.SupervisionDecisionStop}[c.FailMode]}
+	}
 	if !c.Top {
-		if _, err := w.spawnTop(&vfSpec{Name: "P"}); err != nil {
+		if _, err := w.spawnTop(parent); err != nil {
 			res.viols = append(res.viols, vfViol{"harness-spawn", "P", err.Error()})
 			return
 		}
 		w.wait()
 		parentPath = w.ref("P").GetPath()
+	}
+	if c.Early == "watch" {
+		if _, err := w.spawnTop(&vfSpec{Name: "X"}); err != nil {
+			res.viols = append(res.viols, vfViol{"harness-spawn", "X", err.Error()})
+			return
+		}
+		w.wait()
 	}
 	path := parentPath + "/w"
 	ref, _ := NewRef(w.sys.Ref().GetAddress(), path)
@@ -54,6 +71,17 @@ func vfRunLW(c vfLWCase, res *vfCellResult) (early int, injected int) {
 			runtime.Gosched()
 		}
 		if w.ctxOf(path) != nil {
+			switch c.Early {
+			case "kill":
+				w.sys.Kill(ref, false, "vf-early")
+			case "poison":
+				w.sys.Kill(ref, true, "vf-early")
+			case "watch":
+				w.tellName("X", &vfCmd{Op: "watchref", Arg: ref})
+				for i := 0; i < 2000; i++ { // let X handle it (no virtual time passes)
+					runtime.Gosched()
+				}
+			}
 			for k := 0; k < c.Sends; k++ {
 				w.tell(ref, "parsed", &vfCmd{Op: "noop"})
 				n++
@@ -67,9 +95,9 @@ func vfRunLW(c vfLWCase, res *vfCellResult) (early int, injected int) {
 	}
 	ctl := verifrt.BeginInject(plan, 0)
 	if c.Top {
-		_, _ = w.spawnTop(&vfSpec{Name: "w"})
+		_, _ = w.spawnTop(child)
 	} else {
-		w.tellName("P", &vfCmd{Op: "spawn", Arg: &vfSpec{Name: "w"}})
+		w.tellName("P", &vfCmd{Op: "spawn", Arg: child})
 	}
 	w.wait()
 	select {
@@ -84,13 +112,37 @@ func vfRunLW(c vfLWCase, res *vfCellResult) (early int, injected int) {
 		w.tell(r, "actorof", &vfCmd{Op: "noop"})
 	}
 	w.settle(10 * time.Millisecond)
+	if c.Early == "watch" {
+		if r := w.ref("w"); r != nil {
+			w.sys.Kill(r, false, "vf-late")
+		}
+		w.settle(10 * time.Millisecond)
+	}
 	if err := w.stop(); err != nil {
 		res.viols = append(res.viols, vfViol{"c07-stop-error", "Stop", err.Error()})
 	}
 	w.settle(time.Second)
+	// the early sender's user messages were sent from one goroutine: the actor must handle them in that order
+	last := 0
+	for _, e := range w.snapshot() {
+		if e.Kind == "recv" && e.Path == path && e.Msg == "U" {
+			w.mu.Lock()
+			snt := w.sent[e.ID]
+			w.mu.Unlock()
+			if snt != nil && snt.Via == "parsed" {
+				if e.ID < last {
+					res.viols = append(res.viols, vfViol{"order-per-sender", "launch window", fmt.Sprintf("%s handled the early sender's message #%d after #%d (sent in the opposite order by one goroutine)", path, e.ID, last)})
+				}
+				last = e.ID
+			}
+		}
+	}
 	res.viols = append(res.viols, w.oracleOverlap()...)
 	res.viols = append(res.viols, w.oracleLedger(nil)...)
 	res.viols = append(res.viols, w.oracleLifecycle()...)
+	res.viols = append(res.viols, w.oracleUnpaused()...)
+	res.viols = append(res.viols, w.oracleWatchers()...)
+	res.viols = append(res.viols, w.oracleTree()...)
 	res.trace = w.traceOf()
 	return
 }
@@ -125,6 +177,14 @@ func TestVerif_launchwindow(t *testing.T) {
 				for _, n := range []int{1, 3} {
 					cases = append(cases, vfLWCase{Site: s, Top: top, Sends: n})
 				}
+				for _, early := range []string{"kill", "poison", "watch"} {
+					cases = append(cases, vfLWCase{Site: s, Top: top, Sends: 2, Early: early})
+				}
+			}
+			// OnLaunch fails while early mail is waiting: it must follow the supervisor's decision like any queued mail
+			for fm := 1; fm <= 3; fm++ {
+				cases = append(cases, vfLWCase{Site: s, Top: false, Sends: 3, FailMode: fm})
+				cases = append(cases, vfLWCase{Site: s, Top: false, Sends: 2, Early: "kill", FailMode: fm})
 			}
 		}
 	}
